@@ -28,7 +28,7 @@ MANIFEST = {
              "the model; pattern texts are pinned."),
     'technique': 'Lean 4 proof (structural induction over the statement tree / directory tree / line groups) + differential correspondence',
 }
-RULE = ('generated importable modules: random nesting of def / async def / class / decorators (functools.wraps, factories; defined in the module or IMPORTED from a helper module: wraps-style, identity, class decorators) / properties with '
+RULE = ('generated importable modules, written to disk as BYTES (plain / UTF-8 BOM / \\r\\n / BOM+\\r\\n / \\r line ends / latin-1 or utf-8 coding cookie, non-ASCII comments): random nesting of def / async def / class / decorators (functools.wraps, factories; defined in the module or IMPORTED from a helper module: wraps-style, identity, class decorators) / properties with '
         'setter and deleter / staticmethod / classmethod / if / if-else / try / try-finally / with / for / while / main guard (both spellings, with and without else-branch definitions, anywhere at module level) / nested defs '
         'and classes / redefinitions / unexecuted branches; docstrings google, freeform, plain, one-line; raw / u / triple-single / '
         'triple-double quotes; opened on their own line or sharing it; 0..3 example blocks. model vs implementation on calldefs, on '
@@ -284,8 +284,8 @@ def _w_package_e2e(args):
                     open(path, 'w').write('>>> print(1)\n')
                     continue
                 m = gm.gen_module(rng, gm.Opts(max_top=2))
-                with open(path, 'w') as f:
-                    f.write(m.source)
+                with open(path, 'wb') as f:
+                    f.write(C.to_bytes(m.source))
                 if inpkg:
                     for cn, num, _fp in cc.expected_ids(m, 'auto'):
                         expected.append([rel, cn, num])
@@ -390,7 +390,26 @@ def classify(ctx, hit):
     return None
 
 
+WITNESS_C = b'# -*- coding: latin-1 -*-\ndef f():\n    """caf\xe9\n\n    >>> print(1)\n    1\n    """\n'
+
+
 def replay_finding(ctx, finding):
+    if finding['id'] == 'K-C07-c':
+        # a module in a declared non-UTF-8 encoding with a non-ASCII byte: the UTF-8 decode fails, the fallback hands BYTES
+        # to TopLevelVisitor, and `bytes.encode` raises AttributeError out of parse_doctestables (dynamic analysis is fine)
+        from xdoctest import core
+        with cc.scratch_dir() as d:
+            path = os.path.join(d, cc.unique_modname('xdvlatin') + '.py')
+            with open(path, 'wb') as f:
+                f.write(WITNESS_C)
+            try:
+                with cc.quiet():
+                    list(core.parse_doctestables(path, style='auto', analysis='static'))
+            except AttributeError:
+                return True
+            except Exception:
+                return False
+        return False
     return False
 
 
